@@ -18,6 +18,14 @@ Str(s) == [t |-> "str", s |-> s]
 Arr(a) == [t |-> "arr", a |-> a]
 Obj(o) == [t |-> "obj", o |-> o]
 
+\* a TOWER: the value x inside n containers (arrays, one-member objects, or alternating) - the compact name of a
+\* deeply nested value, which scenario and trace lines carry instead of the nesting itself
+RECURSIVE Tower(_, _, _)
+Tower(n, sh, x) ==
+  IF n = 0 THEN x
+  ELSE IF sh = "arr" \/ (sh = "mix" /\ n % 2 = 1) THEN Arr(<<Tower(n - 1, sh, x)>>)
+  ELSE Obj({[k |-> <<"A">>, v |-> Tower(n - 1, sh, x)]})
+
 RECURSIVE NumsIn(_)
 NumsIn(v) ==
   CASE v.t = "num" -> {v.c}
